@@ -52,6 +52,7 @@ type seqStats struct {
 	epilogues    int64
 	refillOK     int64 // epilogues in which N managed sends succeeded and one more was refused
 	postClose    int64 // sends refused after close
+	skipped      int64
 	prngOps      int64
 	prngMaxLen   int64
 	cycles       map[int]int64 // fill / drain / refill cycles per N
@@ -101,9 +102,24 @@ type seqRun struct {
 
 func newSeqRun(cfg seqCfg, st *seqStats, slot *wdSlot) *seqRun {
 	ctx, cancel := context.WithCancel(context.Background())
+	// the construction runs under the same watchdog as every other call into the library
+	if slot != nil {
+		slot.constructing.Store(int32(cfg.N))
+		slot.enter()
+	}
+	h := client.VerifNewInFlight(ctx, cfg.N, cfg.MaxPending, longTimeout)
+	if slot != nil {
+		slot.leave()
+		slot.constructing.Store(0)
+	}
+	return newSeqRunOn(cfg, st, slot, h, cancel)
+}
+
+// newSeqRunOn starts a history on a handler that has already been constructed.
+func newSeqRunOn(cfg seqCfg, st *seqStats, slot *wdSlot, h *client.VerifInFlight, cancel context.CancelFunc) *seqRun {
 	r := &seqRun{
 		cfg: cfg, cancel: cancel, stats: st, slot: slot,
-		h:        client.VerifNewInFlight(ctx, cfg.N, cfg.MaxPending, longTimeout),
+		h:        h,
 		sf:       newSendFrame(0),
 		everUsed: make([]bool, cfg.N+1),
 	}
